@@ -20,7 +20,10 @@
 (*                           len, hlen]                                    *)
 (* Unit table     U[name] = [fam : "simple"|"hmac"|"phased"|"shamb", L, blk, *)
 (*                           pf : phase rule of a phased unit]; for a      *)
-(*                  "simple" unit blk is the kernel granularity (1 or 4)   *)
+(*                  "simple" unit blk is the kernel granularity (1 or 4),  *)
+(*                  fl the lane length granularity (1; 16 / 8 for DOCSIS:  *)
+(*                  only whole blocks go through the lanes) and ss says    *)
+(*                  whether a message below fl bypasses the lanes          *)
 (***************************************************************************)
 EXTENDS Naturals, Sequences, FiniteSets
 
@@ -56,7 +59,8 @@ USubmit(un, st, j, len, aad) ==
     IF U[un].fam = "phased" THEN LET r == OP(U[un].L)!OSubmit(st, j, PhasesOf(U[un].pf, len, aad)) IN [st |-> r.st, ret |-> r.ret]
     ELSE IF U[un].fam = "shamb" THEN LET r == OM(U[un].L, U[un].blk)!OSubmit(st, j, len) IN [st |-> r.st, ret |-> r.ret]
     ELSE IF U[un].fam = "hmac" THEN LET r == OH(U[un].L, U[un].blk)!OSubmit(st, j, len) IN [st |-> r.st, ret |-> r.ret]
-    ELSE LET r == OS(U[un].L, U[un].blk)!OSubmit(st, j, len) IN [st |-> r.st, ret |-> r.ret]
+    ELSE IF U[un].fl > 1 /\ len < U[un].fl /\ U[un].ss THEN [st |-> st, ret |-> j]      \* shorter than one block: never enters a lane
+    ELSE LET r == OS(U[un].L, U[un].blk)!OSubmit(st, j, (len \div U[un].fl) * U[un].fl) IN [st |-> r.st, ret |-> r.ret]
 UFlush(un, st) ==
     IF U[un].fam = "phased" THEN LET r == OP(U[un].L)!OFlush(st) IN [st |-> r.st, ret |-> r.ret]
     ELSE IF U[un].fam = "shamb" THEN LET r == OM(U[un].L, U[un].blk)!OFlush(st) IN [st |-> r.st, ret |-> r.ret]
